@@ -5,6 +5,9 @@ cd /verif
 fail=0
 for d in seeded/*/; do
   id=$(basename $d); prop=${id%%-*}
+  # the check that catches it, when that is not the check of the property the author aimed at
+  cb=$(python3 -c "import json;m=json.load(open('/verif/$d/meta.json'));c=m.get('caught_by') or [];print(c[0] if c and '$prop' not in c else '')")
+  if [ -n "$cb" ]; then prop=$cb; fi
   out=$(timeout 900 tools/evalmut.sh /verif/${d}patch.diff $prop)
   echo "$id: $out" >> ${REGRESS_LOG:-/tmp/regress.full}
   if grep -q expected_not_caught $d/meta.json; then continue; fi; if ! echo "$out" | grep -q "^$prop exit=1"; then echo "NOT CAUGHT: $id: $out"; fail=1; fi
